@@ -128,16 +128,16 @@ def monitor (op obs : String) : String :=
   | ["wsign", _n, _t, _excl, _msg] =>
     match field o "dkg", field o "sig" with
     | some d, some sg =>
-      if d ≠ "ok" then "FAIL dkg-failed"
-      else if sg = "ok" then "ok"
+      if holdsWsign ⟨d == "ok", sg == "ok"⟩ then "ok"
+      else if d ≠ "ok" then "FAIL dkg-failed"
       else "FAIL wallet-signing-with-stored-indexes:" ++ sg
     | _, _ => "FAIL unparsable-observation"
   | ["sign", _n, _t, _excl, _subsets, _msg] =>
     match field o "dkg", field o "ks", field o "sigs" with
     | some d, some ks, some sigs =>
-      if d ≠ "ok" then "FAIL dkg-failed"
+      if holdsSign ⟨d == "ok", ks == "ok", (sigs.splitOn "|").map (· == "ok")⟩ then "ok"
+      else if d ≠ "ok" then "FAIL dkg-failed"
       else if ks ≠ "ok" then "FAIL stored-index-does-not-map-to-dkg-party"
-      else if (sigs.splitOn "|").all (· = "ok") then "ok"
       else "FAIL quorum-did-not-sign-validly:" ++ sigs
     | _, _, _ => "FAIL unparsable-observation"
   | _ => "FAIL bad-op"
